@@ -37,9 +37,14 @@ def c18ReadOnlyEscapes : List (String × String × String × String) :=
    ("security", "randomNumberMinimum", "GenerateRandomNumber", "addr")]
 
 /-- every write to, address-of, slicing of, pointer-method call on, or reference-passing of a
-package-level variable occurs in an `init` function, or is one of the two reviewed read-only escapes -/
+package-level variable occurs in an `init` function, or is one of the two reviewed read-only escapes.
+Also admitted (neither occurs on the pinned tree): a write inside the function literal handed to
+`Do` of a package-level `sync.Once` (`"once-init"`: executed once, before any reader gets past the
+Once — race-free lazy initialisation of a table), and the use of a package-level `sync.Once` /
+`sync.Mutex` / `sync.RWMutex` itself (`"sync-primitive"`: a lock holds no data; what it protects is
+still subject to this theorem). -/
 theorem C18_globals_init_only :
-    ∀ u ∈ globalUses, u.2.2.1 = "init" ∨ u ∈ c18ReadOnlyEscapes := by decide
+    ∀ u ∈ globalUses, u.2.2.1 = "init" ∨ u.2.2.1 = "once-init" ∨ u.2.2.2 = "sync-primitive" ∨ u ∈ c18ReadOnlyEscapes := by decide
 
 /-- no method of a type whose values sit in the shared registries writes through its receiver -/
 theorem C18_descriptors_immutable : descriptorWrites = [] := by decide
